@@ -260,7 +260,12 @@ def h_regdump() -> bool:
     flat = []
     for p in parts:
         flat += list(p)
-    data = mkbytes(*[[v] for v in flat], b"\xEE\xEE")
+    # 0..2 bytes behind the last register: the dump may end exactly on the last byte of the section
+    tail = sym_int("tail", 0, 2)
+    data = None
+    for cand in range(3):
+        if tail == cand:
+            data = mkbytes(*[[v] for v in flat], b"\xEE" * cand)
     fj = FakeJson()
     try:
         with env(True), patched(ud, json=fj):
@@ -330,11 +335,12 @@ def _scratch():
         return verdict(sym_all(conds), obs={"out": out})
     if CASE == "ffdc":
         n = sym_int("nul", 0, 2)
-        doc = {"Callout List": [{"Priority": "H", "Unit": "proc0"}], "n": 3}
+        # (raw non-ASCII UTF-8 in the section text: the values come back as encoded, not as mojibake)
+        doc = {"Callout List": [{"Priority": "H", "Unit": "proc0", "Note": "85\u00b0C \u00fcber"}], "n": 3}
         payload = None
         for cand in range(3):
             if n == cand:
-                payload = realjson.dumps(doc).encode() + b"\0" * cand
+                payload = realjson.dumps(doc, ensure_ascii=False).encode("utf-8") + b"\0" * cand
         with patched(ud, json=fj):
             tok = ud.parseUDToJson(3, 1, memoryview(payload))
         return verdict(tok.obj == {"Callout List FFDC": doc}, obs={"out": tok.obj})
